@@ -24,6 +24,25 @@ from . import common as C
 ASSEMBLERS = ("__init__", "assemble", "_traverse")
 
 
+def assembling_functions(ctx):
+    """Functions that run as part of assembling the metafile: the constructors and `assemble` methods of the creator family
+    and everything they (transitively) call.  What remains - sort_meta, write and whatever else touches the dictionary - is
+    'after assembly'."""
+    cached = getattr(ctx, "_assemblers", None)
+    if cached is not None:
+        return cached
+    base = ctx.prog.cls("torrentfile.torrent:MetaFile")
+    entries = []
+    for c in ctx.prog.subclasses(base):
+        for nm in ASSEMBLERS:
+            m = c.methods.get(nm)
+            if m is not None:
+                entries.append(m)
+    out = set(C.reach(ctx, entries, allow_approx=False)) | set(entries)
+    ctx._assemblers = out
+    return out
+
+
 def _pt(ctx):
     pt = getattr(ctx, "_pt_cache", None)
     if pt is None:
@@ -127,7 +146,7 @@ def deep_resorts(ctx, path):
         w = path[:i]
         parents = by_path.get(w[:-1], set())
         for ins, hit in pt.insertions_into(parents):
-            if ins.fn is None or ins.fn.name in ASSEMBLERS or ins.how != "store" or ins.value is None:
+            if ins.fn is None or ins.fn in assembling_functions(ctx) or ins.how != "store" or ins.value is None:
                 continue
             if (const_str(ins.key) if ins.key is not None else None) != w[-1]:
                 continue
@@ -170,10 +189,10 @@ def integrity(ctx, rid, watched, what):
             ctx.violated(rid, ins.fn, "%s: `%s` %s the assembled %s: what is written no longer describes what was hashed" % (
                 label, norm(ins.node), "removes entries from" if ins.how == "remove" else "reorders", what), ins.node)
         for ins, hit in pt.insertions_into(objs):
-            if ins.fn is None or ins.fn.name in ASSEMBLERS:
+            if ins.fn is None or ins.fn in assembling_functions(ctx):
                 continue
-            if _in_rekey_loop(ctx, ins.node):
-                if ins.how == "store":
+            if ins.how == "rekey" or _in_rekey_loop(ctx, ins.node):
+                if ins.how in ("store", "rekey"):
                     n += 1
                     touched[w] += 1
                     ctx.holds(rid, ins.fn, "%s: re-keyed in place (every key is popped and re-inserted with its own value, in sorted order)" % label, ins.node)
@@ -188,7 +207,7 @@ def integrity(ctx, rid, watched, what):
                 ctx.undecided(rid, ins.fn, "%s: `%s` adds to the assembled %s outside the assembling functions" % (label, norm(ins.node), what), ins.node)
         # ---- the parent dictionary: stores / deletions of the watched key
         for ins, hit in pt.insertions_into(parents):
-            if ins.fn is None or ins.fn.name in ASSEMBLERS:
+            if ins.fn is None or ins.fn in assembling_functions(ctx):
                 continue
             k = const_str(ins.key) if ins.key is not None else None
             if k != w[-1]:
